@@ -750,3 +750,72 @@ Example text_line_example :
   text_line ([99; 233; 8364; 127925; 46; 109] : str)
   /\ utf8_encode [233; 8364; 127925] = [195; 169; 226; 130; 172; 240; 159; 142; 181].
 Proof. split; [repeat split; discriminate|reflexivity]. Qed.
+
+(* ------------------------------------------------------------------ T2: legacy (non UTF-8) extended M3U *)
+
+(* A line of an extended M3U that is not an entry: blank, a comment (whatever bytes it
+   carries, e.g. a Latin-1 #EXTINF title) or an entry that is not valid UTF-8.  parse
+   leaves it out and goes on with the next line: the document need not be UTF-8 as a whole. *)
+Inductive mline : Type :=
+| MEntry (b : bytes) (s : str)
+| MIgnored (b : bytes).
+Definition mline_bytes (l : mline) : bytes := match l with MEntry b _ => b | MIgnored b => b end.
+Definition mline_ok (l : mline) : Prop :=
+  match l with
+  | MEntry b s => safe_line (b, s)
+  | MIgnored b => noeol b /\ (b_blank b = true \/ starts_with [HASH] b = true \/ utf8_decode b = None)
+  end.
+Fixpoint mline_entries (ls : list mline) : list str :=
+  match ls with
+  | [] => []
+  | MEntry _ s :: t => s :: mline_entries t
+  | MIgnored _ :: t => mline_entries t
+  end.
+
+Lemma extm3u_lines_mixed ls :
+  Forall mline_ok ls -> extm3u_lines true (map mline_bytes ls) = mline_entries ls.
+Proof.
+  induction 1 as [|l t Hl Ht IH]; [reflexivity|].
+  destruct l as [b s|b]; cbn [map mline_bytes extm3u_lines mline_entries orb].
+  - destruct Hl as (Hn & Hb & Hh & Hd & Hs). cbn [fst snd] in *. rewrite Hb, Hh. cbn [orb].
+    rewrite Hd, Hs, IH. reflexivity.
+  - destruct Hl as (Hn & [Hb|[Hh|Hd]]).
+    + rewrite Hb. cbn [orb]. exact IH.
+    + rewrite Hh, orb_true_r. exact IH.
+    + destruct (b_blank b || starts_with [HASH] b); [exact IH|]. rewrite Hd. exact IH.
+Qed.
+
+Theorem wellformed_m3u_mixed_lemma :
+  forall fx o (ls : list mline),
+    Forall mline_ok ls ->
+    parse fx o (render_m3u (map mline_bytes ls)) = Ok (map Some (mline_entries ls)).
+Proof.
+  intros fx o ls Hs. unfold parse.
+  assert (Hd : detect_extm3u (render_m3u (map mline_bytes ls)) = true).
+  { unfold detect_extm3u, render_m3u. rewrite EXTM3U_eq. cbn [app firstn]. reflexivity. }
+  rewrite Hd. f_equal. f_equal.
+  unfold parse_extm3u, splitlines, render_m3u. unfold NLb at 1. cbn [app].
+  rewrite splitlines_aux_line by reflexivity. cbn [rev app].
+  rewrite splitlines_render.
+  - cbn [extm3u_lines orb].
+    replace (starts_with EXTM3U EXTM3U) with true by reflexivity.
+    replace (b_blank EXTM3U || starts_with [HASH] EXTM3U) with true by reflexivity.
+    apply extm3u_lines_mixed. exact Hs.
+  - rewrite Forall_map. eapply Forall_impl; [|exact Hs]. intros l H.
+    destruct l; cbn [mline_bytes]; [apply H|apply H].
+Qed.
+
+(* non-vacuity: a Latin-1 #EXTINF title and a Latin-1 entry between two ASCII entries *)
+Example mixed_example :
+  let ls := [MIgnored (lit "#EXTINF:-1,Caf" ++ [233]); MEntry (lit "http://a/1") (lit "http://a/1");
+             MIgnored (lit "http://a/caf" ++ [233; 46]); MEntry (lit "http://a/3") (lit "http://a/3")] in
+  Forall mline_ok ls
+  /\ utf8_decode (render_m3u (map mline_bytes ls)) = None
+  /\ parse true ex_o (render_m3u (map mline_bytes ls)) = Ok [Some (lit "http://a/1"); Some (lit "http://a/3")].
+Proof.
+  cbv zeta. split; [|split; vm_compute; reflexivity].
+  constructor; [split; [reflexivity|right; left; reflexivity]|].
+  constructor; [repeat split; reflexivity|].
+  constructor; [split; [reflexivity|right; right; reflexivity]|].
+  constructor; [repeat split; reflexivity|constructor].
+Qed.
